@@ -71,6 +71,7 @@ type schedSpec struct {
 	Favor   string   `json:"favor,omitempty"` // process name prefix that is starved/favoured
 	Label   string   `json:"label,omitempty"` // hold: a process that arrives at this label is kept there ...
 	Nth     int      `json:"nth,omitempty"`   // ... from its nth arrival on (0: always), until nothing else can run
+	Coarse  bool     `json:"coarse,omitempty"` // the hook points inside one step of the specification do not park (replays of TLC behaviours)
 	Who     string   `json:"who,omitempty"`   // hold: this process runs ahead of the others until it is held
 	After   []string `json:"after,omitempty"` // window: the held process is let go (and then runs alone for Burst steps) as soon as a client call of one of these ops has returned (empty: any op)
 	Burst   int      `json:"burst,omitempty"`
@@ -962,6 +963,7 @@ var liveSink *json.Encoder // set by the test entry point
 func runEpisode(prog *progSpec) (res epResult) {
 	gated := prog.Sched.Kind != "free" && prog.Sched.Kind != "race"
 	g := newGate(gated)
+	g.coarse = prog.Sched.Coarse
 	g.sink = liveSink
 	if prog.Sched.Kind == "race" {
 		// race-detector runs: no logging at all, the harness must not add any synchronisation of its own
